@@ -145,8 +145,9 @@ impl ConcProp {
   pub fn generate(&self, seed: u64, index: u64) -> ConcCase {
     let rs = run_seed(seed, str_hash(self.stream), index);
     let mut rng = Rng::new(rs);
-    let scenario = (self.gen)(&mut rng.fork(1));
+    let mut scenario = (self.gen)(&mut rng.fork(1));
     let knobs = Knobs::draw(&mut rng.fork(2));
+    crate::conc::inject_child_faults(&mut scenario, &mut rng.fork(3));
     ConcCase {
       kind: "conc".into(),
       scenario,
@@ -296,7 +297,7 @@ fn map_cached(t: &TreeSpec, cid: u32, new: &TreeSpec) -> TreeSpec {
 
 fn op_shrinks(k: &OpKind) -> Vec<OpKind> {
   match k {
-    OpKind::CloneThen { then } => vec![(**then).clone()],
+    OpKind::CloneThen { then } | OpKind::ChildFault { then, .. } => vec![(**then).clone()],
     OpKind::Stream { columns, abort_at: Some(_) } => vec![OpKind::Stream { columns: *columns, abort_at: None }],
     OpKind::ToWriter { plan } if *plan != Default::default() => vec![OpKind::ToWriter { plan: Default::default() }],
     _ => vec![],
